@@ -16,7 +16,10 @@ class ExtExc(External):
 
 class StandIn:
     def __init__(self, prog, check_condition="fork", device_bytes=None, close_fails="never", stat_fails="never",
-                 other_sgio_error="never", replug="fork", fill_limit=128):
+                 other_sgio_error="never", replug="fork", fill_limit=128, maybe_missing=()):
+        # maybe_missing: attribute names of binding objects that the analysed code itself expects to be absent
+        # sometimes (it reads them under `except AttributeError`): reading one forks on "absent"
+        self.maybe_missing = set(maybe_missing)
         self.fill_limit = fill_limit
         self.prog = prog
         self.I = prog.I
@@ -31,10 +34,17 @@ class StandIn:
 
     def install(self):
         self.I.external_hook = self.hook
+        self.I.external_attr_hook = self.attr_hook if self.maybe_missing else None
         return self
 
     def remove(self):
         self.I.external_hook = None
+        self.I.external_attr_hook = None
+
+    def attr_hook(self, obj, name, node, frame):
+        if name in self.maybe_missing and self.I.decide("%s has no attribute %s" % (obj.name, name), node, frame):
+            raise PyRaise(Instance(self.I.bclasses["AttributeError"], ("%s has no attribute %r" % (obj.name, name),)),
+                          node, frame.where(node))
 
     def fill(self, buf):
         if isinstance(buf, Buf) and buf.cells is not None:
